@@ -213,7 +213,6 @@ func (*Engine).step
 
 func (*Engine).Process
   props C15
-  requires engine-was-built-by-NewEngine: e.partMap != nil
   modifies *
   observe part := getPartition
   observe raw := toInt64
@@ -244,5 +243,26 @@ func aggregate
   loop 3 invariant s == csum(arr(vals), $i)
   loop 4 invariant forall(j, 0, $i + 1, m <= vals[j]) && exists(j, 0, $i + 1, m == vals[j]) && len(vals) > 0
   loop 5 invariant forall(j, 0, $i + 1, m >= vals[j]) && exists(j, 0, $i + 1, m == vals[j]) && len(vals) > 0
+
+// ---- construction of the pattern engine: every DEFINE condition and MEASURES expression is prepared from its own text and
+// lands under its own symbol / position; the automaton is compiled from the resolved pattern; the engine starts with an
+// empty partition table and the limits and times configured
+immutable Engine: partMap!
+
+func NewEngine
+  props C15
+  modifies *
+  observe pat := resolveSymbols#2
+  observe syms := resolveSymbols
+  observe nfa := Compile
+  observe lazy := hasReluctant
+  before Compile the-automaton-is-compiled-from-the-resolved-pattern: $arg0 == $pat
+  before prepare@1 each-define-condition-is-prepared-from-its-own-text: $arg0 == d.Cond
+  before prepare@2 each-measure-is-prepared-from-its-own-text: $arg0 == m.Expr
+  before hasReluctant laziness-is-decided-by-the-pattern-written: $arg0 == spec.Pattern
+  ensures no-pattern-or-no-order-by-is-an-error: spec == nil || old(spec.Pattern) == nil || len(old(spec.OrderBy)) == 0 ==> result1 != nil
+  ensures an-engine-or-an-error: result1 == nil ==> result0 != nil && fresh(result0) && result0.partMap != nil && fresh(result0.partMap)
+  atreturn the-engine-carries-what-was-configured: result1 == nil ==> result0.spec == spec && result0.nfa == $nfa && result0.lazy == $lazy && seqeq(result0.measures, spec.Measures) && result0.tsField == spec.OrderBy[0].Expression && result0.within == ite(spec.Within <= 0, types.DefaultMatchWithin, spec.Within) && result0.sweepInterval == ite(result0.within / 2 < 50000000, 50000000, result0.within / 2)
+  loop 2 invariant len(measurePrep) == len($s)
 @*/
 
